@@ -275,7 +275,9 @@ Definition token_okb (cs : list char) (table : ctable) (t : token) : bool :=
 (* ------------------------------------------------------------------------------------------- *)
 (* covered shapes: an operator is a Literal or a MatchFirst of Literals (whitespace-skipping, white characters dw); the
    operand expression is Word(cs) (no min/max/as_keyword); a parenthesis is a Literal or Suppress(Literal).
-   Levels LJuxL (its ZeroOrMore ends after trailing whitespace) and the ternary levels are not covered by the theorem. *)
+   Covered levels: postfix, prefix, binary left / right, right juxtaposition, ternary left / right (both operator positions
+   readable).  LJuxL is NOT covered: its ZeroOrMore ends after the trailing whitespace, so a prefix reading of that level does
+   not end at the end of its last token (the end position claimed by C16_climb_partial). *)
 Definition ws_attrs (dw : list char) (cp : bool) (a : attrs) : bool :=
   Bool.eqb (callpre a) cp && skipws a && str_eqb (white a) dw.
 
@@ -299,6 +301,10 @@ Definition op_spellings (dw : list char) (e : expr) : option (list str) :=
   | _ => None
   end.
 
+(* a ternary level ((op1, op2), 3, assoc): both operator positions must be readable *)
+Definition tern_spellings (mk : list str -> list str -> clevel) (a b : option (list str)) : option clevel :=
+  match a, b with Some x, Some y => Some (mk x y) | _, _ => None end.
+
 Definition clevel_of (dw : list char) (lv : level) : option clevel :=
   match lv with
   | LPostfix op _ => option_map CPostfix (op_spellings dw op)
@@ -306,7 +312,9 @@ Definition clevel_of (dw : list char) (lv : level) : option clevel :=
   | LBinL op _ => option_map CBinL (op_spellings dw op)
   | LBinR op _ => option_map CBinR (op_spellings dw op)
   | LJuxR _ => Some CJuxR
-  | _ => None
+  | LTernL o1 o2 _ => tern_spellings CTernL (op_spellings dw o1) (op_spellings dw o2)
+  | LTernR o1 o2 _ => tern_spellings CTernR (op_spellings dw o1) (op_spellings dw o2)
+  | LJuxL _ => None
   end.
 Definition ctable_of (dw : list char) (table : list level) : option ctable := all_some (map (clevel_of dw) table).
 
